@@ -784,7 +784,8 @@ fn is_close_to_multiple_of_pi(joint_value: f64, threshold: f64) -> bool {
     let normalized_angle = joint_value.rem_euclid(2.0 * PI);
     // Check if the normalized angle is close to 0 or PI
     normalized_angle < threshold ||
-        (PI - normalized_angle).abs() < threshold
+        (PI - normalized_angle).abs() < threshold ||
+        (2.0 * PI - normalized_angle) < threshold
 }
 
 fn are_angles_close(angle1: f64, angle2: f64) -> bool {
